@@ -87,6 +87,18 @@ class P(Prop):
                 e = rng.uniform(-5, 5)
                 out.append(K.kernel_case("Segment<Poly%d>::integral" % k, [e] + cs + [x, y], cls="seg_integral"))
                 out.append(K.kernel_case("Segment<Poly%d>::indefinite" % k, [e] + cs, cls="seg_indefinite"))
+            # anchors at |x| = 2^100 .. 2^250 (either sign), coefficients scaled so that every term of F(knot.x) is an ordinary number
+            for _ in range(max(2, per // 3)):
+                import math
+                e = rng.randint(100, min(250, 900 // (k + 1)))
+                kx = rng.choice([1.0, -1.0]) * math.ldexp(1.0, e)
+                cs = [rng.choice([3.0, -1.0, 1.0, 0.5]) * math.ldexp(1.0, -e * (i + 1) + rng.randint(-2, 2)) for i in range(k + 1)]
+                out.append(K.kernel_case("Poly%d::integral" % k, cs + [kx, rng.choice([10.0, -3.0, 0.0])], cls="integral/huge_anchor"))
+            # coefficient vectors with ratios far beyond 2^52 between entries (nothing is "negligible": each lane is divided on its own)
+            for _ in range(max(2, per // 3)):
+                cs = [rng.choice([2.0 ** 60, 3.0, 2.0 ** -40, 0.0, 1.0, -2.0 ** 70, 5e-20]) for _ in range(k + 1)]
+                out.append(K.kernel_case("Poly%d::indefinite" % k, cs, cls="indefinite/wide_ratio"))
+                out.append(K.kernel_case("Poly%d::integral" % k, cs + [rng.choice([2.0, -0.5]), 1.0], cls="integral/wide_ratio"))
             # the knot abscissa an exact root of the INTEGRAND (small integer roots), the antiderivative not zero there
             if k >= 1:
                 for _ in range(max(2, per // 3)):
